@@ -21,6 +21,10 @@ SPECS = [
     {'conv': 'shoc_standard', 'ny': 3, 'nx': 3, 'skew': 1 / 7, 'node_holes': [[0, 0]]},
     {'conv': 'ugrid', 'ny': 2, 'nx': 3, 'split': [[0, 1]], 'merge': [[1, 0]], 'jitter': 0.013},
     {'conv': 'ugrid', 'ny': 2, 'nx': 2, 'tables': ['edge_node'], 'start_index': 1, 'jitter': 0.007},
+    # coordinates of small magnitude (around the Greenwich meridian / the equator): more decimal places are needed than for 100-ish values
+    {'conv': 'cf1d', 'ny': 3, 'nx': 4, 'nonuniform': True, 'origin': [-0.0023, 0.00071], 'step': [0.0011, 0.0007], 'bounds_shrink': 0.00013},
+    # more than 100 cells, fewer than 100 polygons (two rows of holes): indexes with more digits than the number of records
+    {'conv': 'cf2d', 'ny': 10, 'nx': 11, 'bounds': 'vars', 'skew': 0.0, 'holes': [[j, i] for j in (0, 1) for i in range(11)]},
 ]
 FORMATS = ['geojson', 'shapefile', 'wkt', 'wkb']
 
